@@ -1,7 +1,9 @@
 """C41 - compiler directives apply exactly within their scope.
 
-(a) Scope / precedence, complete product: for each observable directive D in {cdivision, cpow,
-overflowcheck} ALL 3**5 = 243 assignments of {unset, True, False} to the five levels
+(a) Scope / precedence, complete product: `binding` (observable: type of the function object) over all
+3**4 assignments to (option, header, module-level with block around the def, function decorator) and all
+3**4 to (option, header, cdef-class decorator, method decorator); for each value-observable directive D in
+{cdivision, cpow, overflowcheck} ALL 3**5 = 243 assignments of {unset, True, False} to the five levels
 (option passed to the compiler, `# cython:` header comment, class decorator, function decorator, `with` block)
 are compiled (9 modules = option x header, each holding 3 x 27 methods) and run; every method returns the
 value of a probe expression BEFORE the with block, INSIDE it and AFTER it (so a block that restores the
@@ -11,6 +13,11 @@ both sides: cdivision -7 // 2 -> -4 / -3; cpow 2 ** -1 -> 0.5 / 0; overflowcheck
 -> 0 / OverflowError.  Extra cells: doubly nested with blocks (all 9 True/False/unset pairs), sibling
 functions after a decorated one, two header lines, a `# cython:` comment after the first statement (not a
 header), conflicting header lines (error).
+
+(c) One-process histories: every ordered pair (and triple) of module kinds {header cdivision=True, header
+cdivision=False, no header, option cdivision=True, header with three other directives} compiled in ONE process
+with an empty compiler_directives option; each later module's generated C must be byte-identical to the C
+the same module gives when compiled alone in a fresh process (header directives must not leak).
 
 (b) Directive value parsing, complete table: every name in Options.directive_types (+ an unknown one) x
 every string of a 17-value alphabet through parse_directive_value (strict and relaxed_bool) against a
@@ -30,10 +37,12 @@ TECHNIQUE = ('complete 3^5 level-assignment product per observable directive exe
 LEVEL_TEXT = ('For cdivision, cpow and overflowcheck every assignment of {unset, True, False} to the five sources of a setting '
               '(compiler option, header comment, class decorator, function decorator, with block) is compiled and executed; the '
               'probe values before, inside and after the with block must equal the innermost-set-wins / header-over-option model.  '
-              'Every directive name x 17 value strings x {strict, relaxed} goes through parse_directive_value and an item x '
+              'All ordered pairs and triples of header/option module kinds are compiled in one process and must give the C of a '
+              'stand-alone compilation.  Every directive name x 17 value strings x {strict, relaxed} goes through parse_directive_value and an item x '
               'separator x flag table through parse_directive_list; results must be the documented value or ValueError.')
 LEVEL_NOTE = ('Three value-observable directives stand for the scope machinery (boundscheck/wraparound/nonecheck off-sides are '
-              'undefined behaviour and are not executed; c_string_type/binding are not settable in with blocks).  Option level = '
+              'undefined behaviour and are not executed; c_string_type is not settable in with blocks; binding is covered at the levels '
+              'where it is legal - a cdef class cannot be placed in a with block).  Option level = '
               'CompilationOptions(compiler_directives=...), which is what cythonize(compiler_directives=) and -X end in.  '
               'Parsing model is a transcription of the documented directive types.')
 
@@ -65,7 +74,7 @@ def _probe(d, var, ind):
 
 def module_source(o, h):
     """One module for the (option, header) pair; the option level is applied by the build job."""
-    hdr = ', '.join('%s=%s' % (d, h) for d in PROBES) if h is not None else ''
+    hdr = ', '.join('%s=%s' % (d, h) for d in list(PROBES) + ['binding']) if h is not None else ''
     src = []
     if hdr:
         src.append('# cython: ' + hdr)
@@ -114,12 +123,38 @@ def module_source(o, h):
             src.append('    return r0, r0, r0')
             cases.append({'d': d, 'func': 'deco_%s_%s' % (d, TAG[f]), 'levels': [o, h, None, f, None], 'kind': 'sibling-decorated'})
             cases.append({'d': d, 'func': 'after_%s_%s' % (d, TAG[f]), 'levels': [o, h, None, None, None], 'kind': 'sibling-after'})
+    # binding: observable = type of the function object; legal levels are option, header, a module-level with block
+    # around the def, the decorator of a cdef class and the function decorator (a cdef class cannot sit in a with block)
+    for w in V:
+        src.append('with cython.binding(%s):' % w if w is not None else 'if True:')
+        for f in V:
+            name = 'bf_%s_%s' % (TAG[w], TAG[f])
+            if f is not None:
+                src.append('    @cython.binding(%s)' % f)
+            src.append('    def %s(a, b):' % name)
+            src.append('        return a')
+            cases.append({'d': 'binding', 'func': name, 'levels': [o, h, w, f, None], 'kind': 'binding-func'})
+    for c in V:
+        cls = 'BK_%s' % TAG[c]
+        if c is not None:
+            src.append('@cython.binding(%s)' % c)
+        src.append('cdef class %s:' % cls)
+        for f in V:
+            name = 'bm_%s' % TAG[f]
+            if f is not None:
+                src.append('    @cython.binding(%s)' % f)
+            src.append('    def %s(self, a, b):' % name)
+            src.append('        return a')
+            cases.append({'d': 'binding', 'cls': cls, 'meth': name, 'levels': [o, h, c, f, None], 'kind': 'binding-method'})
     return '\n'.join(src) + '\n', cases
 
 
 def expected(case):
     d = case['d']
     o, h, c, f, w = case['levels']
+    if d == 'binding':
+        eff = next((v for v in (f, c, h, o) if v is not None), True)     # levels = [option, header, with|class, func]
+        return ('bound' if eff else 'plain',) * 3
     if case['kind'] == 'nested':
         outer = effective(d, o, h, None, None, case['w1'])
         inner = case['w2'] if case['w2'] is not None else outer
@@ -148,6 +183,11 @@ def _run_module(so, name, cases):
     mod = farm.load(so, name)
     out = []
     for c in cases:
+        if c['d'] == 'binding':
+            obj = getattr(getattr(mod, c['cls']), c['meth']) if 'cls' in c else getattr(mod, c['func'])
+            t = 'bound' if type(obj).__name__ == 'cython_function_or_method' else 'plain'
+            out.append(('value', [repr(t)] * 3))
+            continue
         args = PROBES[c['d']][1]
         try:
             if 'cls' in c:
@@ -194,7 +234,7 @@ def part_a(ctx):
         for h in V:
             src, cases = module_source(o, h)
             name = 'c41_%s%s' % (TAG[o], TAG[h])
-            directives = {d: o for d in PROBES} if o is not None else None
+            directives = {d: o for d in list(PROBES) + ['binding']} if o is not None else None
             jobs.append(('product', name, src, directives, cases, wd))
             meta.append((name, src, directives, cases))
     for i, (hname, src, exp) in enumerate(HEADER_CELLS):
@@ -222,6 +262,9 @@ def part_a(ctx):
                 # root key: which returned slot is wrong and which level holds the innermost setting
                 slots = 'exc' if got[0] != 'value' else '+'.join(s for s, a, b in zip(('before', 'inside', 'after'), got[1], want[1]) if a != b)
                 inner = next((nm for nm, v in zip(('with', 'funcdeco', 'classdeco', 'header', 'option'), (w, f, cl, h, o)) if v is not None), 'default')
+                if c['d'] == 'binding':
+                    inner = next((nm for nm, v in zip(('funcdeco', 'with' if c['kind'] == 'binding-func' else 'classdeco', 'header', 'option'),
+                                                      (f, cl, h, o)) if v is not None), 'default')
                 set_levels = '+'.join(nm for nm, v in zip(('option', 'header', 'classdeco', 'funcdeco', 'with'), (o, h, cl, f, w)) if v is not None)
                 ctx.violation('scope|%s|%s|wrong=%s%s' % (c['d'], c['kind'], slots, '|innermost=' + inner if c['kind'] != 'nested' else ''),
                               '%s %s levels(option,header,class,func,with)=%r%s: got %r, model %r'
@@ -240,6 +283,87 @@ def part_a(ctx):
             ctx.violation('header|%s|%s' % (hname, 'value' if r[0] == 'ok' else r[0]), 'header cell %s: got %r, expected %r' % (hname, r, exp),
                           {'part': 'h', 'name': hname, 'source': src, 'expected': repr(exp)})
     return {'evaluations': evals, 'nontrivial': nontriv, 'mismatches': mism, 'modules': len(jobs), 'distinct_expected_outcomes': len(outcomes)}
+
+
+# ============================================================================================= part (c)
+# Header directives must not outlive their compilation: all ordered pairs and triples of module kinds compiled in ONE
+# process; every later module's generated C must equal what the same module gives when compiled alone in a fresh process.
+LEAK_BODY = ('def div(int a, int b):\n    return a // b\ndef idx(list l, int i):\n    return l[i]\n'
+             'def pw(int a, int b):\n    return a ** b\ndef plain(x):\n    return x\n')
+LEAK_KINDS = {
+    'HT': ('# cython: cdivision=True\n', {}),
+    'HF': ('# cython: cdivision=False\n', {}),
+    'NH': ('', {}),
+    'OPT': ('', {'cdivision': True}),
+    'H2': ('# cython: boundscheck=False, cpow=True, binding=False\n', {}),
+}
+
+
+def _leak_child(workdir, seq):
+    import hashlib
+    os.makedirs(workdir, exist_ok=True)
+    os.chdir(workdir)
+    from Cython.Compiler import Main
+    out = []
+    for kind in seq:
+        hdr, opt = LEAK_KINDS[kind]
+        fn = 'm_%s.pyx' % kind
+        with open(fn, 'w') as f:
+            f.write(hdr + LEAK_BODY)
+        # compiler_directives is EMPTY unless the kind sets the option (the command line / cythonize default)
+        opts = Main.CompilationOptions(Main.default_options, language_level=3, compiler_directives=dict(opt))
+        r = Main.compile_single(fn, opts, None)
+        if r.num_errors:
+            out.append('errors')
+            continue
+        with open('m_%s.c' % kind, 'rb') as f:
+            data = f.read()
+        out.append(hashlib.sha256(data).hexdigest()[:16] + (':div' if b'__Pyx_div_' in data else ':cdiv'))
+    return out
+
+
+def _leak_job(arg):
+    idx, seq, wd = arg
+    r = runner.forked(_leak_child, os.path.join(wd, 's%d' % idx), list(seq), timeout=600)
+    if r.kind != 'ok':
+        return ('fail', '%s %s %s' % (r.kind, str(r.value)[-600:], r.output[-400:]))
+    return ('ok', r.value)
+
+
+def part_c(ctx):
+    kinds = list(LEAK_KINDS)
+    tri = kinds[:4] if ctx.quick else kinds
+    seqs = [(k,) for k in kinds] + list(itertools.product(kinds, repeat=2)) + list(itertools.product(tri, repeat=3))
+    wd = ctx.workdir('leak')
+    res = farm.pmap(_leak_job, [(i, sq, wd) for i, sq in enumerate(seqs)])
+    alone = {}
+    evals = 0
+    nontriv = set()
+    mism = 0
+    for sq, r in zip(seqs, res):
+        if len(sq) == 1:
+            if r[0] != 'ok' or r[1][0] == 'errors':
+                ctx.violation('history|harness|alone-failed', '%r: %r' % (sq, r), {'part': 'c', 'seq': list(sq)})
+            else:
+                alone[sq[0]] = r[1][0]
+    for sq, r in zip(seqs, res):
+        if len(sq) == 1:
+            continue
+        if r[0] != 'ok':
+            mism += 1
+            ctx.violation('history|harness|sequence-failed', '%r: %s' % (sq, r[1]), {'part': 'c', 'seq': list(sq)})
+            continue
+        for i, (kind, got) in enumerate(zip(sq, r[1])):
+            evals += 1
+            nontriv.add(sq[:i + 1])
+            if got != alone.get(kind):
+                mism += 1
+                ctx.violation('history|' + '>'.join(sq[:i + 1]),
+                              'compiled in one process in the order %r, module %d (%s) gives C %s; compiled alone it gives %s'
+                              % (list(sq), i + 1, kind, got, alone.get(kind)), {'part': 'c', 'seq': list(sq[:i + 1])})
+                break
+    return {'evaluations': evals, 'nontrivial': nontriv, 'mismatches': mism, 'sequences': len(seqs),
+            'distinct_alone_outputs': len(set(alone.values()))}
 
 
 # ============================================================================================= part (b)
@@ -409,7 +533,7 @@ def part_b(ctx):
 
 def run(ctx):
     only = os.environ.get('C41_PARTS')     # debugging aid only (evidence then says exhaustive: false)
-    parts = set(only.split(',')) if only else {'a', 'b'}
+    parts = set(only.split(',')) if only else {'a', 'b', 'c'}
     a = {'evaluations': 0, 'nontrivial': set(), 'modules': 0}
     b = {'evaluations': 0, 'nontrivial': set()}
     if 'a' in parts:
@@ -418,14 +542,20 @@ def run(ctx):
     if 'b' in parts:
         b = part_b(ctx)
         ctx.log('part b: %r' % {k: v for k, v in b.items() if k != 'nontrivial'})
+    c3 = {'evaluations': 0, 'nontrivial': set()}
+    if 'c' in parts:
+        c3 = part_c(ctx)
+        ctx.log('part c: %r' % {k: v for k, v in c3.items() if k != 'nontrivial'})
     src, cases = module_source(True, False)
     cov = {
-        'evaluations': a['evaluations'] + b['evaluations'],
-        'distinct_nontrivial': len(a['nontrivial']) + len(b['nontrivial']),
+        'evaluations': a['evaluations'] + b['evaluations'] + c3['evaluations'],
+        'distinct_nontrivial': len(a['nontrivial']) + len(b['nontrivial']) + len(c3['nontrivial']),
         'rule': 'scope part: distinct (directive, kind, level assignment) with at least one level set (the all-unset assignment is the '
                 'trivial case); parse part: distinct (type kind, value string, relaxed flag, documented outcome class) and distinct '
-                '(item pair, flags) - directive names of the same type kind and separators collapse',
+                '(item pair, flags) - directive names of the same type kind and separators collapse; history part: distinct module-kind '
+                'prefixes compiled in one process',
         'scope': {k: v for k, v in a.items() if k != 'nontrivial'}, 'parsing': {k: v for k, v in b.items() if k != 'nontrivial'},
+        'one_process_histories': {k: v for k, v in c3.items() if k != 'nontrivial'},
         'programs': 9 * len(cases) + len(HEADER_CELLS), 'modules_built': a['modules'],
         'samples': [{'levels(option,header,class,func,with)': cases[5]['levels'], 'method': cases[5]['cls'] + '.' + cases[5]['meth'],
                      'expected': [repr(x) for x in expected(cases[5])]},
@@ -452,6 +582,14 @@ def replay(ctx, case):
         if exp is None:
             return False if (r[0] == 'build' and r[1] == 'cython') else 'accepted: %r' % (r,)
         return False if (r[0] == 'ok' and r[1] == exp) else 'got %r, expected %s' % (r, exp)
+    if case.get('part') == 'c':
+        wd = ctx.workdir('replay-leak')
+        seq = case['seq']
+        a = _leak_job((0, (seq[-1],), wd))
+        r = _leak_job((1, tuple(seq), wd))
+        if a[0] != 'ok' or r[0] != 'ok':
+            return 'compile failed: %r %r' % (a, r)
+        return False if r[1][-1] == a[1][0] else 'after %r the module gives C %s, alone %s' % (seq[:-1], r[1][-1], a[1][0])
     from Cython.Compiler import Options
     if case.get('part') == 'b':
         try:
